@@ -19,8 +19,13 @@ def run_mux(program, events, end='complete', monitor=True, fail=None, notaps=Fal
     if extra:
         ctx.extra.update(extra)
 
+    # same code path as rs.state.with_memory_store, but the harness keeps a handle on the StoreManager so that
+    # the abstract store state (marker vectors of all states) can be sampled after every source event
+    manager = rs.state.StoreManager(store_factory=rs.state.MemoryStore)
+    ctx.extra['store'] = manager
+
     def mk(subject):
-        return subject.pipe(rs.state.with_memory_store(pipeline=build(program, ctx, 'mux', 'P')))
+        return subject.pipe(rs.state.with_store(manager, pipeline=build(program, ctx, 'mux', 'P')))
     if items is None:
         final, escaped = drive_hot(ctx, mk, events, end, mk_item=mk_rec)
     else:
@@ -115,3 +120,9 @@ def terminal_of(records):
         if kind == 'e':
             return ('error', item)
     return None
+
+
+def store_states(ctx):
+    """Hashes of the abstract store states sampled after each source event (coverage measure only;
+    tolerant of the attributes disappearing after a refactoring)."""
+    return ctx.extra.get('states', ())
